@@ -45,7 +45,9 @@ def V(rule, ctx, detail, broker="mem"):
 def plan_job(kind, i, rnd):
     """-> (script, job kwargs, expected final bucket {success, data, exception} | None, expected number of executions)"""
     big = {"blob": "x" * 20000, "n": list(range(50))}
-    val = rnd.choice([{"a": 1, "b": [1, 2, {"c": None}]}, [1, "two", 3.5], "text", 7, True])
+    # (text a real application produces: non-ASCII, a file name decoded with surrogateescape, separators, NUL)
+    val = rnd.choice([{"a": 1, "b": [1, 2, {"c": None}]}, [1, "two", 3.5], "text", 7, True, "ünïcødé 😀", "name-\udcff.bin", {"k\u2028": "v\x00", "s": "\ud800"}])
+    bad = rnd.choice(["missing-thing", "missing-\udcff", "нет {0}", "x\u2029y"])
     kw = {"store_result": True, "retries": 0, "result_ttl": rnd.choice([timedelta(days=1), timedelta(seconds=90), None])}
     kw["result_id"] = f"rid-{i}-{rnd.randrange(10**6)}" if rnd.random() < 0.5 else f"res-j{i:02d}"
     enc = lambda v: json.dumps(v, separators=(",", ":"))  # noqa: E731  (BasicConverter / JSON_ENCODER form)
@@ -56,7 +58,7 @@ def plan_job(kind, i, rnd):
     if kind == "large":
         return {"do": "ok", "ret": big}, kw, {"success": True, "data": enc(big), "exception": None}, 1
     if kind == "exc":
-        return {"do": "raise", "exc": "KeyError", "msg": "missing-thing"}, kw, {"success": False, "data": "'missing-thing'", "exception": "KeyError"}, 1
+        return {"do": "raise", "exc": "KeyError", "msg": bad}, kw, {"success": False, "data": repr(bad), "exception": "KeyError"}, 1
     if kind == "timeout":
         return {"do": "ok", "d": 3.0}, kw, {"success": False, "data": "", "exception": "TimeoutError"}, 1
     if kind == "chain2":
@@ -180,7 +182,14 @@ def judge_baseline(case, info, out, stats, fps):
             continue
         got = {"success": b.success, "data": b.data, "exception": b.exception}
         for f in ("success", "data", "exception"):
-            if got[f] != exp[f]:
+            same = got[f] == exp[f]
+            if not same and f == "data" and exp["success"]:
+                # the stored text is an encoding of the returned value: what counts is what it decodes to
+                try:
+                    same = json.loads(got[f]) == json.loads(exp[f])
+                except Exception:  # noqa: BLE001
+                    same = False
+            if not same:
                 out.append(V("bucket_mismatch", f"{ctx}.{f}", f"{id_} ({kind}): bucket {f}={str(got[f])[:80]!r}, expected {str(exp[f])[:80]!r}", bk))
         if not (b.started_when <= b.finished_when):
             out.append(V("bucket_mismatch", ctx + ".times", f"{id_}: started_when {b.started_when} > finished_when {b.finished_when}", bk))
